@@ -38,4 +38,4 @@ def check(case, ctx):
 
 
 def subchecks():
-    return [HypSub("wellformed", alg_cases, check, quick=9000, thorough=120000)]
+    return [HypSub("wellformed", alg_cases, check, quick=20000, thorough=250000)]
